@@ -320,7 +320,7 @@ func c30Exec(c c30Case, x *pbt.Ctx) error {
 func TestC30(t *testing.T) {
 	pbt.Run(t, "C30",
 		"lists of 0..64 distinct transaction ids (hashed or near-identical consecutive ids; sizes biased to 0..3 and 2^e+-1), subsets by bit mask (empty, full, single, all-but-one, sparse, uniform) handed to the generator in list or rotated order and to the validator in list order; the generated proof must validate against TxMerkleRoot; then one tampering site: another root (8 variants), a related id replaced by / an extra related id that is not in the list (also regenerating the proof with it), one proof hash replaced (9 variants), one flag replaced by every other value in 0..3 and a random byte; every tampering is a real change and must be refused; non-trivial = list >= 3 and subset non-empty and proper; distinct by the whole case",
-		pbt.Options{Checks: pbt.Per(40000, 3000000),
+		pbt.Options{Checks: pbt.Per(40000, 2000000),
 			MinClass: map[string]int{"tamper=flag": 100, "tamper=hash": 100, "tamper=root": 100, "tamper=foreign-add": 100, "tamper=foreign-replace": 50}},
 		c30Gen, c30Exec)
 }
